@@ -291,6 +291,8 @@ def read_cgsmiles(pattern):
                 # added to the existing sequence
                 base_anchor = prev_node
                 for idx in range(0,int(pattern[eon_a+2:eon_b])-1):
+                    # each copy is attached to the anchor of the previous copy
+                    prev_node = base_anchor
                     prev_anchor = None
                     skip = 0
                     # in principle each branch can contain any number of nested branches
